@@ -109,6 +109,21 @@ let init () =
         let l1 = ln a b c d and l2 = ln e f g h in
         v (from_lines_ok l1 l2 && ip_intersection_ok l1 l2 && nearly_colinear_ok l1 l2)
     | _ -> "BAD-ARGS");
+  let so = function "1" -> Thickline.SOLeft | "2" -> Thickline.SORight | _ -> Thickline.SONone in
+  register "ok_index" (function [k] -> v (point_index_ok (z_in k)) | _ -> "BAD-ARGS");
+  register "ok_from_slice" (function [k] -> v (tri_from_slice_ok (z_in k)) | _ -> "BAD-ARGS");
+  register "ok_new_const" (function
+    | [w; h; bpp; len] -> v (image_new_const_ok um (z_in w) (z_in h) (z_in bpp) (z_in len))
+    | _ -> "BAD-ARGS");
+  register "ok_extents" (function
+    | [a; b; c; d; w; o] -> v (OverflowWalk.extents_ok (ln a b c d) (z_in w) (so o))
+    | _ -> "BAD-ARGS");
+  register "ok_join" (function
+    | [a; b; c; d; e; f; w; o] -> v (OverflowWalk.join_from_points_ok (pt a b) (pt c d) (pt e f) (z_in w) (so o))
+    | _ -> "BAD-ARGS");
+  register "ok_thick_points" (function
+    | [a; b; c; d; w] -> v (OverflowWalk.styled_line_pixels_ok (ln a b c d) (z_in w))
+    | _ -> "BAD-ARGS");
   register "ok_line_height" (function
     | [k; x; base] -> v (line_height_ok (k = "1") (z_in x) (z_in base))
     | _ -> "BAD-ARGS");
